@@ -528,6 +528,14 @@ func init() {
 		}
 		return StrV{s: "addr:" + string(b)}
 	})
+	reg("verif_AddrUpper", func(p *Path, fn *ssa.Function, a []Value) Value {
+		i := p.concreteInt(a[0], "verif_AddrUpper index")
+		b := make([]byte, 20)
+		for k := range b {
+			b[k] = byte(i + 1)
+		}
+		return StrV{s: "ADDR:" + string(b)}
+	})
 	reg("verif_AddrSym", func(p *Path, fn *ssa.Function, a []Value) Value {
 		ts := p.newInput(p.strArg(a[0]), "bytes", SBV, 8, 20)
 		bs := []*Term{}
@@ -551,12 +559,16 @@ func init() {
 			return bad("decoding bech32 failed")
 		}
 		bs := strBytes(s)
-		pre := "addr:"
-		cs := make([]*Term, 5)
-		for i := 0; i < 5; i++ {
-			cs[i] = byteEq(bs[i], mkInt64(int64(pre[i])))
+		// bech32 text is valid in all-lowercase and in all-uppercase; both spellings decode to the
+		// same account ("ADDR:" stands for the uppercase spelling), String() yields the lowercase one
+		match := func(pre string) *Term {
+			cs := make([]*Term, 5)
+			for i := 0; i < 5; i++ {
+				cs[i] = byteEq(bs[i], mkInt64(int64(pre[i])))
+			}
+			return tAnd(cs...)
 		}
-		if !p.decide(tAnd(cs...)) {
+		if !p.decide(match("addr:")) && !p.decide(match("ADDR:")) {
 			return bad("decoding bech32 failed")
 		}
 		vals := make([]Value, 20)
